@@ -85,7 +85,7 @@ func TestProp(t *testing.T) {
 	rep.Assume("virtual time by re-sealing the cookie with shifted deadlines is equivalent to the wall clock advancing, because the proxy keeps session time only in the cookie")
 	rep.Assume("generated instants keep >= 30 s distance from every deadline; 429/503 answers are excluded (C05)")
 
-	ps, err := sut.NewProxyStack(sut.ProxyOpts{Upstreams: []sut.UpstreamSpec{
+	ps, err := sut.NewProxyStack(sut.ProxyOpts{ViaEnv: true, Upstreams: []sut.UpstreamSpec{
 		{Service: "grp", From: "grp.sso.test", AllowedGroups: []string{"eng", "ops"}},
 		{Service: "dom", From: "dom.sso.test", AllowedEmailDomains: []string{"corp.test"}},
 		{Service: "grp2", From: "grp2.sso.test", AllowedGroups: []string{"sec"}},
